@@ -228,6 +228,37 @@ example :
         [.header, .row 2, .row 5, .row 6] := by
   decide
 
+/-- **Statistics options are read, never written** (`itstat_func_and_object`, for every options
+    dictionary with distinct keys, `None` and `{}` included): the caller's `itstat_options` object
+    is what it was; the insertion function is the caller's `"itstat_func"` if there is one and the
+    generated default otherwise; `IterationStats` receives no `itstat_func` argument, the caller's
+    `fields` / `display` if given and the defaults otherwise, and every other key of the caller
+    verbatim.  Hence any number of optimisers built one after the other from the *same* options
+    object get the same insertion function and the same `IterationStats` arguments. -/
+theorem C15_itstat_options {β : Type} (fields func displayOff : β) (user : Option (List (String × β)))
+    (hu : ∀ u, user = some u → (u.map (·.1)).Nodup) (n : Nat) :
+    ((itstatSetup fields func displayOff user).userAfter = user ∧
+      (itstatSetup fields func displayOff user).func = some ((userGet user "itstat_func").getD func) ∧
+      dictGet (itstatSetup fields func displayOff user).kwargs "itstat_func" = none ∧
+      dictGet (itstatSetup fields func displayOff user).kwargs "fields" = some ((userGet user "fields").getD fields) ∧
+      dictGet (itstatSetup fields func displayOff user).kwargs "display" = some ((userGet user "display").getD displayOff) ∧
+      ∀ k, k ≠ "itstat_func" → k ≠ "fields" → k ≠ "display" →
+        dictGet (itstatSetup fields func displayOff user).kwargs k = userGet user k) ∧
+    ((itstatSetups fields func displayOff n user).2 = user ∧
+      ∀ s ∈ (itstatSetups fields func displayOff n user).1,
+        s.func = (itstatSetup fields func displayOff user).func ∧
+        s.kwargs = (itstatSetup fields func displayOff user).kwargs) :=
+  ⟨itstatSetup_spec fields func displayOff user hu, itstatSetups_same fields func displayOff n user⟩
+
+-- non-vacuity: custom fields (11) and function (12) with a display period; three optimisers from one object
+example :
+    let user : Option (List (String × Nat)) := some [("fields", 11), ("itstat_func", 12), ("period", 3)]
+    ((itstatSetups 1 2 0 3 user).1.map (fun s => (s.func, s.kwargs))) =
+      [(some 12, [("fields", 11), ("display", 0), ("period", 3)]), (some 12, [("fields", 11), ("display", 0), ("period", 3)]),
+       (some 12, [("fields", 11), ("display", 0), ("period", 3)])] ∧
+    (itstatSetup 1 2 0 (some ([] : List (String × Nat)))).func = some 2 := by
+  decide
+
 /-- **Statistics columns**: for every optimiser class, sub-problem solver and objective flag the
     column names are pairwise distinct and so are the attribute expressions (one value per column,
     `namedtuple` accepts the names), the record starts with `Iter` (`itnum`) and `Time`
